@@ -126,6 +126,8 @@ def random_chunks(rng, n):
         return [n]
     if k == 1 and n <= 64:
         return [1] * n
+    if k == 1 and n <= 5000 and rng.chance(1, 3):
+        return [1] * n            # thousands of one-byte chunks
     out = []
     left = n
     while left > 0:
@@ -150,7 +152,7 @@ def random_target(rng):
 def reads_str(reads):
     if not reads:
         return "-"
-    return ",".join("%s@%d" % ("*" if m is None else str(m), n) for m, n in reads)
+    return ",".join("%s@%s" % ("*" if m is None else str(m), str(n)) for m, n in reads)
 
 
 def action_str(reads, finish):
